@@ -52,7 +52,7 @@ def classify_js(err):
     return ('EXC:' + str(name), None, msg)
 
 
-def run_py(text, A, B=None, a_names=None, b_names=None, timeout=10.0, normalize=True):
+def run_py(text, A, B=None, a_names=None, b_names=None, timeout=10.0, normalize=True, _second_try=False):
     """Run query_table on private copies. Returns dict(records, header, warnings, error)."""
     eng = tree.engine()
     out, warns, names = [], [], []
@@ -63,4 +63,7 @@ def run_py(text, A, B=None, a_names=None, b_names=None, timeout=10.0, normalize=
     except BaseException as e:
         if isinstance(e, (KeyboardInterrupt, SystemExit)):
             raise
+        if isinstance(e, core.CaseTimeout) and not _second_try:
+            # a timeout is a wall-clock judgement: confirm it once with a 12x budget on private copies before it may become a verdict
+            return run_py(text, [list(r) if isinstance(r, list) else r for r in A], None if B is None else [list(r) if isinstance(r, list) else r for r in B], a_names, b_names, timeout * 12, normalize, True)
         return {'records': None, 'partial': out, 'header': None, 'warnings': warns, 'error': classify_py(e)}
